@@ -204,6 +204,34 @@ example : (plan cfg0 rank0 rank0_ok.sub [tree0]).map View.id = [4, 3, 5] := by
     View.children, View.info, View.id, View.pref, prefOf, rkLe, Pref.toInt,
     OomdModel.Generated.killPrefAvoid, OomdModel.Generated.killPrefNormal, OomdModel.Generated.killPrefPrefer]
 
+/-! ## a victim that emptied on its own after the tick sampled it -/
+
+/-- "If the chosen victim yields no signalled process oomd falls back", for a victim whose processes all left between the tick's
+    sample of cgroup.events (`v.info.populated`, which let it through the unpopulated filter) and the kill: the kernelkill
+    branch reads cgroup.events afresh (`env.events`), and when that read does not say `populated 1` nothing is written to
+    cgroup.kill, no event of the attempt is a signal, and the attempt is no success - so by `success_iff_an_attempt_succeeded`
+    and `fallback_exhausts_candidates` the loop goes on to the next-best candidate. -/
+theorem emptied_victim_is_no_success (cfg : KillCfg) (v : View) (k : Nat) (env : Env)
+    (hd : cfg.dry = false) (hk : cfg.kernelKill = true) (a : Option Bool) (rest : List (Option Bool))
+    (he : env.events = a :: rest) (ha : a ≠ some true) :
+    (tryToLogAndKill cfg v k env).val = false ∧ ∀ e ∈ (tryToLogAndKill cfg v k env).evs, isSignal e = false := by
+  obtain ⟨o1, c1, o2, c2, o3, c3, o4, c4, f, hevs, hv⟩ := attempt_kernel_not_populated cfg v k env hd hk a rest he ha
+  refine ⟨hv, ?_⟩
+  rw [hevs]
+  intro e hmem
+  simp only [List.mem_cons, List.not_mem_nil, or_false] at hmem
+  rcases hmem with rfl | rfl | rfl | rfl | rfl <;> rfl
+
+/-- the premises are met by a cgroup the sample called populated: the attempt leaves the start-of-attempt xattrs and the
+    freeze write, and fails -/
+example :
+    let cfgK : KillCfg := { cfg0 with kernelKill := true }
+    let envK : Env := { procs := [], killRc := [], xattr := [], writes := [1, 1], pidfd := [], mrelease := [], events := [some false] }
+    (leaf 9 true false none4 0).info.populated = some true ∧
+    (tryToLogAndKill cfgK (leaf 9 true false none4 0) 0 envK).val = false ∧
+    (tryToLogAndKill cfgK (leaf 9 true false none4 0) 0 envK).evs.length = 5 := by
+  decide
+
 /-! ## the fallback stack across a prekill-hook wait (serialise on the deferring tick, restore on the resuming tick) -/
 
 section HookWait
